@@ -12,7 +12,7 @@
 From Coq Require Import String.
 From Verif Require Import Params Base Value Formatter FormatSpec FormatProofs FormatText FormatBound.
 From Verif Require Lexer Literals Parser LexBridge LexBridge2 Complete LexRender ParseRun CollateCompare.
-From Verif Require RoundTripLit RoundTripLeaf RoundTripScan RoundTripDeriv RoundTripProofs.
+From Verif Require RoundTripLit RoundTripLeaf RoundTripScan RoundTripDeriv RoundTripProofs RoundTripSets RoundTripTotal.
 From Verif Require Import RoundTrip.
 Open Scope Z_scope.
 
@@ -325,6 +325,16 @@ Theorem C10_round_trip :
     Parser.parse_source fparse crank text = Parser.PValue (canon crank v).
 Proof. exact RoundTripProofs.round_trip. Qed.
 
+(* FormatValue accepts every value of the universe (no pointer, every key an intrinsic): the two
+   together — ParseSource(FormatValue(v)) SUCCEEDS and gives canon v *)
+Theorem C10_round_trip_total :
+  forall (fparse : list Z -> option Z) (crank : val -> val -> option comparison) (ftext : Z -> list Z)
+         (printable : Z -> bool) (maximum : nat) (v : val),
+    rt_ok crank maximum v = true -> floats_roundtrip fparse ftext v = true ->
+    exists text, format0 ftext printable maximum v = Ret text /\
+                 Parser.parse_source fparse crank text = Parser.PValue (canon crank v).
+Proof. exact RoundTripTotal.round_trip_total. Qed.
+
 (* on the canonical dynamic types, with every Set listed in collator order, nothing changes *)
 Theorem C10_round_trip_canonical :
   forall (crank : val -> val -> option comparison) (v : val),
@@ -362,6 +372,15 @@ Theorem C10_text_fixpoint :
     format0 ftext printable maximum (canon crank v) = format0 ftext printable maximum v.
 Proof. exact RoundTripProofs.text_fixpoint. Qed.
 
+(* a sufficient condition for the Set clause of sets_sorted: the members, as the parser will see
+   them, are listed in strictly ascending collator order — every member ranks Greater than every
+   member before it (no transitivity of the ranking is needed).  Then the binary search of the
+   Set constructor puts every member behind the last one. *)
+Theorem C10_sets_sorted_ascending :
+  forall (crank : val -> val -> option comparison) (l : list val),
+    RoundTripSets.ascending crank [] (map (canon crank) l) ->
+    Parser.set_build crank [] (map (canon crank) l) = Some (map (canon crank) l).
+Proof. exact RoundTripSets.ascending_sorted. Qed.
 (* ---- elided values are not parsed ----
    FULL STATEMENT (not proved): for every v with nest_depth v > maximum that FormatValue accepts,
      exists t, parse_source fparse crank (text of v) = PSyntax t /\ ttype_of t = TError /\ tval t = "."
@@ -406,6 +425,9 @@ Example C10_ex_round_trip_hypotheses :
 Proof. vm_compute. repeat split; reflexivity. Qed.
 Example C10_ex_sets_sorted : sets_sorted rt_crank rt_example.
 Proof. cbn [sets_sorted fold_right]. repeat split; try (intros; discriminate); intros _; vm_compute; reflexivity. Qed.
+Example C10_ex_ascending :
+  RoundTripSets.ascending rt_crank [] (map (canon rt_crank) [VBool true; VInt 8 (-3); VInt 64 2; VRune 97; VStr [97]; VUint 64 5]).
+Proof. cbn [map RoundTripSets.ascending app]. repeat split; intros x Hx; cbn [In] in Hx; intuition (subst; vm_compute; reflexivity). Qed.
 (* the conclusion of C10_round_trip on the example, by evaluating both models *)
 Example C10_ex_round_trip :
   format0 rt_ftext (fun _ => false) 8 rt_example = Ret (s2z "[
@@ -515,10 +537,12 @@ Print Assumptions C10_round_trip_scannable.
 Print Assumptions C10_round_trip_lexes.
 Print Assumptions C10_round_trip_derivation.
 Print Assumptions C10_round_trip.
+Print Assumptions C10_round_trip_total.
 Print Assumptions C10_round_trip_canonical.
 Print Assumptions C10_round_trip_equal.
 Print Assumptions C10_round_trip_equal_table.
 Print Assumptions C10_text_fixpoint.
+Print Assumptions C10_sets_sorted_ascending.
 Print Assumptions C10_elided_not_parsed_partial.
 Print Assumptions C10_text_fixpoint_narrow_keys_refuted.
 Print Assumptions C10_text_fixpoint_unsorted_set_refuted.
